@@ -382,8 +382,8 @@ func genHeader(r *rng.R, stateRoot bool) *block.Header {
 		StateRootEnabled: stateRoot,
 		Script:           genWitness(r),
 	}
-	if stateRoot {
-		h.PrevStateRoot = u256(r)
+	if stateRoot && r.Intn(4) != 0 {
+		h.PrevStateRoot = u256(r) // else zero, as in a genesis block
 	}
 	return h
 }
